@@ -17,6 +17,7 @@ import (
 	"github.com/juev/hledger-lsp/internal/analyzer"
 	"github.com/juev/hledger-lsp/internal/ast"
 	"github.com/juev/hledger-lsp/internal/parser"
+	"github.com/juev/hledger-lsp/internal/server"
 )
 
 func init() {
@@ -48,6 +49,10 @@ func init() {
 		text, _ := m["text"].(string)
 		dom, _ := m["dom"].(bool)
 		return c02DiagCase(unhx(text), m["truth"], dom)
+	}
+	replayers["c20.hover"] = func(c *Ctx, m map[string]any) map[string]any {
+		text, _ := m["text"].(string)
+		return c20HoverCase(unhx(text), m["truth"])
 	}
 	replayers["c20.balances"] = func(c *Ctx, m map[string]any) map[string]any {
 		text, _ := m["text"].(string)
@@ -660,6 +665,9 @@ func genQty(r *rand.Rand) dq {
 	case 2:
 		s = 1 + r.IntN(4)
 	}
+	if r.IntN(15) == 0 {
+		s = 5 + r.IntN(8) // up to 12 decimals (DESIGN 4.3)
+	}
 	return dq{coef, s}
 }
 
@@ -985,10 +993,16 @@ func genTransaction(c *Ctx, special int, date string) genTx {
 				p.risky = append(p.risky, rk...)
 			}
 		}
-		if r.IntN(8) == 0 {
+		switch r.IntN(12) {
+		case 0:
 			sb.WriteString("  ; note")
+		case 1:
+			sb.WriteString("  ; " + pick(r, []string{"proj: alpha", "proj: beta", "kind:", "proj: alpha, kind: x"}))
 		}
 		sb.WriteString("\n")
+		if i == 0 && r.IntN(10) == 0 {
+			sb.WriteString("    ; " + pick(r, []string{"trip: rome", "trip:", "proj: alpha"}) + "\n")
+		}
 	}
 	c.Count(fmt.Sprintf("tx.postings.%d", len(ps)))
 	return genTx{ps: ps, text: sb.String(), dom: inDomain(ps)}
@@ -1113,6 +1127,56 @@ func c20BalancesCase(text string, truth any) map[string]any {
 	return map[string]any{"text": hx(text), "txs": txs, "truth": truth, "impl": J{"fromTransactions": a, "fromJournal": b}}
 }
 
+// c20HoverCase: the hover texts that show figures, for every account, payee, amount and tag
+// occurrence of the journal, built by the real builders from the real parse.
+func c20HoverCase(text string, truth any) map[string]any {
+	j, _ := parser.Parse(text)
+	txs := j.Transactions
+	txsJ := []J{}
+	for _, t := range txs {
+		txsJ = append(txsJ, txJ(t))
+	}
+	balances := analyzer.CalculateAccountBalancesFromTransactions(txs)
+	accSeen, paySeen, tagSeen := map[string]bool{}, map[string]bool{}, map[string]bool{}
+	accounts, payees, amounts, tags := [][]any{}, [][]any{}, []string{}, [][]any{}
+	addTag := func(t ast.Tag) {
+		k := hx(t.Name) + ":" + hx(t.Value)
+		if tagSeen[k] {
+			return
+		}
+		tagSeen[k] = true
+		tags = append(tags, []any{hx(t.Name), hx(t.Value), hx(server.VerifBuildTagValueHover(t.Name, t.Value, txs)),
+			server.VerifCountTagUsage(t.Name, txs)})
+	}
+	for i := range txs {
+		tx := &txs[i]
+		if p := server.VerifPayeeOrDescription(tx); p != "" && !paySeen[p] {
+			paySeen[p] = true
+			payees = append(payees, []any{hx(p), hx(server.VerifBuildPayeeHover(p, txs))})
+		}
+		for _, cm := range tx.Comments {
+			for _, t := range cm.Tags {
+				addTag(t)
+			}
+		}
+		for k := range tx.Postings {
+			p := &tx.Postings[k]
+			if !accSeen[p.Account.Name] {
+				accSeen[p.Account.Name] = true
+				accounts = append(accounts, []any{hx(p.Account.Name), hx(server.VerifBuildAccountHover(p.Account.Name, balances, txs))})
+			}
+			if p.Amount != nil {
+				amounts = append(amounts, hx(server.VerifBuildAmountHover(p.Amount, p.Cost)))
+			}
+			for _, t := range p.Tags {
+				addTag(t)
+			}
+		}
+	}
+	return map[string]any{"text": hx(text), "txs": txsJ, "truth": truth,
+		"impl": J{"accounts": accounts, "payees": payees, "amounts": amounts, "tags": tags}}
+}
+
 func genJournal(c *Ctx, maxTx int) (string, []any, bool) {
 	r := c.R
 	n := 1 + r.IntN(maxTx)
@@ -1192,6 +1256,10 @@ func genC02(c *Ctx) {
 
 func genC20(c *Ctx) {
 	riskRate = 0
+	for i := 0; i < c.N(400, 20000); i++ {
+		text, truth, _ := genJournal(c, 6)
+		c.Emit("c20.hover", c20HoverCase(text, normJ(truth)))
+	}
 	for i := 0; i < c.N(800, 40000); i++ {
 		text, truth, _ := genJournal(c, 6)
 		c.Emit("c20.balances", c20BalancesCase(text, normJ(truth)))
